@@ -13,5 +13,5 @@ ok = B.build('$eng','$sc/build',race=$race,out='$sc/$eng')
 if ok and '$eng'=='vproc': ok = B.build_server('$sc/build', out='$sc/resonate')
 sys.exit(0 if ok else 2)" || exit 2
 cd "$sc" && VERIF_SCRATCH="$sc" VERIF_SERVER="$sc/resonate" GORACE="halt_on_error=0 exitcode=0 log_path=$sc/race" "$sc/$eng" -prop "$prop" -tier quick -seed "${VERIF_SEED:-1}" -outdir "$sc/out" -out "$sc/rep.json" "$@" 2>&1 | tee "$sc/raw.txt" | grep -a "VIOLATION\|panic\|BROKEN" | sed -e 's/replay=[^ ]*//' | cut -c1-${TRYFAM_COLS:-300} | sort | uniq -c | sort -rn | head -8
-tail -3 "$sc/raw.txt"; python3 -c "
+tail -3 "$sc/raw.txt"; [ -n "$TRYENG_HITS" ] && python3 -c "import json; r=json.load(open('$sc/rep.json')); print({k:v for k,v in r.get('monitor_hits',{}).items() if '$TRYENG_HITS' in k})"; python3 -c "
 import json; r=json.load(open('$sc/rep.json')); print('evaluations',r.get('evaluations'),'violations',len(r.get('violations') or []), [(v.get('signature') or v.get('sig')) for v in (r.get('violations') or [])][:6])"
